@@ -351,6 +351,16 @@ def failed_refit_leaves_unfitted(ctx, sc_base):
     seq = list(_unconditional(f.node.body))
     first_touch = next((i for i, st in enumerate(seq) if touches_state(st)), None)
     reset = next((i for i, st in enumerate(seq) if is_store(st, "_is_fitted", False) or (isinstance(st, ast.Expr) and isinstance(st.value, ast.Call) and isinstance(st.value.func, ast.Attribute) and st.value.func.attr == "reset" and isinstance(st.value.func.value, ast.Name) and st.value.func.value.id == me)), None)
+    if reset is None or (first_touch is not None and reset > first_touch):
+        # ... or a private helper of the class that does the reset, called unconditionally before the first touch
+        for i, st in enumerate(seq[: first_touch if first_touch is not None else len(seq)]):
+            if isinstance(st, ast.Expr) and isinstance(st.value, ast.Call) and isinstance(st.value.func, ast.Attribute) and isinstance(st.value.func.value, ast.Name) and st.value.func.value.id == me:
+                h = ctx.P.lookup_method(sc_base, st.value.func.attr)
+                if h is not None:
+                    hme = self_name(h)
+                    if any(isinstance(x, ast.Assign) and isinstance(x.value, ast.Constant) and x.value.value is False and any(isinstance(t, ast.Attribute) and isinstance(t.value, ast.Name) and t.value.id == hme and t.attr == "_is_fitted" for t in x.targets) for x in _unconditional(h.node.body)):
+                        reset = i
+                        break
     if first_touch is None:
         ctx.undecided(rule, f"{sc_base.name}.fit|unfitted-first", f.loc(), "no unconditional statement of fit stores the data or calls _fit (unrecognised shape of fit)")
         return
